@@ -70,7 +70,7 @@ def bytelen(e, FA, resolve, gate):
     if isinstance(e, ast.Constant) and isinstance(e.value, bytes):
         return C(len(e.value))
     if isinstance(e, ast.IfExp):
-        t = gate_truth(e.test, gate)
+        t = gate_truth(e.test, gate, resolve)
         if t is True:
             return bytelen(e.body, FA, resolve, gate)
         if t is False:
@@ -84,8 +84,20 @@ def bytelen(e, FA, resolve, gate):
     return None
 
 
-def gate_truth(test, gate):
-    """truth of a condition that is the version gate (mentions file_version and a SeismicZfpVersion literal)."""
+def gate_truth(test, gate, resolve=None, depth=0):
+    """truth of a condition that is the version gate (mentions file_version and a SeismicZfpVersion literal); a gate
+    held in a local flag is resolved through ``resolve``."""
+    if resolve is not None and depth < 3:
+        x = test
+        neg = False
+        while isinstance(x, ast.UnaryOp) and isinstance(x.op, ast.Not):
+            neg = not neg
+            x = x.operand
+        if isinstance(x, ast.Name):
+            d = resolve(x.id)
+            if d is not None and not (isinstance(d, ast.Name) and d.id == x.id):
+                v = gate_truth(d, gate, resolve, depth + 1)
+                return None if v is None else ((not v) if neg else v)
     t = U(test)
     if GATE_HINT in t and 'SeismicZfpVersion' in t and gate is not None:
         neg = False
@@ -117,6 +129,12 @@ def intval(e, FA, resolve, gate):
         return C(e.value)
     if isinstance(e, ast.Call) and U(e.func) == 'len' and e.args:
         return bytelen(e.args[0], FA, resolve, gate)
+    if isinstance(e, ast.Call) and U(e.func).split('.')[-1] == 'pad' and len(e.args) == 2 and not e.keywords:
+        # utils.pad(x, m): x rounded up to a multiple of m  =  m * ceil(x / m)
+        x, m = intval(e.args[0], FA, resolve, gate), intval(e.args[1], FA, resolve, gate)
+        if x is None or m is None:
+            return None
+        return m * T.ceildiv(x, m)
     if isinstance(e, ast.UnaryOp) and isinstance(e.op, ast.USub):
         v = intval(e.operand, FA, resolve, gate)
         return None if v is None else -v
@@ -136,7 +154,7 @@ def intval(e, FA, resolve, gate):
             return T.mod(l, r)
         return None
     if isinstance(e, ast.IfExp):
-        t = gate_truth(e.test, gate)
+        t = gate_truth(e.test, gate, resolve)
         if t is True:
             return intval(e.body, FA, resolve, gate)
         if t is False:
